@@ -162,13 +162,19 @@ CLAIMED = {
         note=TB + "determinism relies on the assumed purity of numpy/scipy; callee frames are used modularly and proved in the same check; history replay is bounded (2 sequences quick, 12 thorough) and not counted as proved",
         technique="frame (modifies-nothing) contracts checked by ownership analysis during symbolic execution of the real bodies + AST scans; bounded native history replay"),
     'C17': dict(
-        level='other', ref='DESIGN.md 3/C17',
-        text="BOUNDED, not a proof: pandas/joblib/json decide this property and are outside any contract the engine can verify. Checked: (1) run-time round-trip contracts on the real "
-             "save/load functions over an enumerated corpus (curves in 3 permeate modes x molar/mass x value scales 1e-9..1e3, permeance functions binary+JSON, conditions, process "
-             "models of all four kinds in both storage modes, repeated saves and a forced directory-name collision with directory snapshots); (2) an AST-level frame argument that "
-             "ProcessModel.save only writes `process_path / name` with process_path created by mkdir(exist_ok=False).",
-        note="bound: 16 objects (quick) / ~50 (thorough), seeded; pathlib mkdir contract assumed; serialisation libraries trusted only as far as the corpus exercises them",
-        technique="run-time checked contracts on the real functions over a bounded corpus (stand-in) + AST scan"),
+        level='proof', ref='DESIGN.md 3/C17, 2.11',
+        text="The REAL save/load functions (PervaporationFunction.save/load/safe_save/safe_load, Conditions.safe_save/safe_load, DiffusionCurve.save -> DiffusionCurveSet.load/"
+             "from_frame, ProcessModel.save -> load in both storage modes, _generate_process_path) are executed symbolically against a model of pathlib/open/json/joblib/pandas "
+             "(pvc/iomodel.py). Proved for series of ARBITRARY length N and arbitrary values: every persisted field is written to a column/key and read back into the same field "
+             "(generic element j of every series, both fluxes, both permeances and their units, compositions re-loaded as mass fractions of the stored composition, permeate "
+             "condition, mixture identity, initial conditions, both permeance fits with coefficient lists of arbitrary length), lengths are preserved, nothing raises for N >= 1, "
+             "the saved object is not modified by curve/function/conditions saves; directory frame on the same model: one save writes into ONE directory created by that call, and "
+             "with the generated name forced to collide (clock hash pinned) a second save of a different model neither alters nor adds to the first directory. The libraries themselves (float formatting, pickling, csv parsing) are ASSUMED to round-trip (listed in the evidence) and are exercised by a "
+             "labelled bounded native round-trip corpus incl. a forced directory-name collision with a different second model.",
+        note=TB + "assumed contracts of pandas.to_csv/read_csv/groupby, json, joblib and pathlib (pvc/iomodel.py ASSUMPTIONS); the numeric 1e-9 agreement through real text formatting is "
+                  "only checked on the bounded native corpus (16 objects quick / ~50 thorough), which is not counted as proved",
+        technique="symbolic execution of the real save/load bodies against assumed library contracts, post-conditions per field for a generic element index; z3 / ring normal form; "
+                  "frame obligations on the modelled file system; bounded native round trips as stand-in for the libraries"),
 }
 
 NOT_YET = "check under construction (see DESIGN.md section 7); not claimed until every obligation is in place"
